@@ -436,16 +436,32 @@ def run(db: DB, rep: Report) -> None:
     def classify(txts: List[str]) -> Set[str]:
         out = set()
         for t in txts:
-            m_ = re.fullmatch(r"(.+?) not in (\([^()]*\)|\[[^\[\]]*\]|\{[^{}]*\})", t)
-            if m_:
-                # membership in a literal collection is an *exact* comparison with each element
-                try:
-                    elts = ast.literal_eval(m_.group(2))
-                except Exception:
-                    elts = None
-                if elts is not None and all(isinstance(x, str) for x in elts):
-                    for x in elts:
-                        out.add("not-iter" if x == "iter" else "not-exactly:" + x)
+            try:
+                te = ast.parse(t, mode="eval").body
+            except SyntaxError:
+                te = None
+            if isinstance(te, ast.Compare) and len(te.ops) == 1 and isinstance(te.ops[0], ast.NotIn) and \
+                    isinstance(te.comparators[0], (ast.List, ast.Tuple, ast.Set)):
+                # membership in a displayed collection is an *exact* comparison with each element
+                done = True
+                for x in te.comparators[0].elts:
+                    if isinstance(x, ast.Constant) and isinstance(x.value, str):
+                        out.add("not-iter" if x.value == "iter" else "not-exactly:" + x.value)
+                        continue
+                    # the label Metrics.get_fiber_trace builds for the same tensor: equivalent to the
+                    # prefix test; any other spelling of it never matches
+                    exp = None
+                    if isinstance(te.left, ast.Call) and isinstance(te.left.func, ast.Attribute) and \
+                            te.left.func.attr == "get_fiber_trace" and te.left.args and src_lits:
+                        exp = "%r + %s" % (src_lits[0], norm(te.left.args[0]))
+                    if exp is not None and norm(x) == exp:
+                        out.add("not-get_payload")
+                    elif any(isinstance(c_, ast.Constant) and isinstance(c_.value, str) and
+                             c_.value.startswith("get_payload") for c_ in ast.walk(x)):
+                        out.add("not-exactly:" + norm(x))
+                    else:
+                        done = False
+                if done:
                     continue
             if re.fullmatch(r"not .+\.startswith\('get_payload'\)", t):
                 out.add("not-get_payload")
@@ -616,6 +632,34 @@ def run(db: DB, rep: Report) -> None:
                           "(deeper buffer levels, later paths) are consumed by the traffic model but never "
                           "registered" % (f.short, why))
 
+    # every traffic-path registration is made per level of the path: the registration sits inside
+    # rank -> path -> level loops over self.traffic_paths
+    gci = Mx.methods["get_collected_tensor_info"]
+    regs_t = [n for n in walk_no_nested(gci.node) if isinstance(n, ast.Call) and isinstance(n.func, ast.Attribute)
+              and n.func.attr == "add" and isinstance(n.func.value, ast.Name)]
+    n_depth = 0
+    for rg in regs_t:
+        loops_ = [p_ for p_ in paths.parents(rg, gci.node) if isinstance(p_, ast.For)][::-1]   # outermost first
+        start = next((k for k, lp in enumerate(loops_) if "self.traffic_paths" in norm(lp.iter)), None)
+        if start is None:
+            continue        # the intersection part of the function
+        depth = 1
+        bound = {x.id for x in ast.walk(loops_[start].target) if isinstance(x, ast.Name)}
+        for lp in loops_[start + 1:]:
+            if paths.load_names(lp.iter) & bound:
+                depth += 1
+                bound = {x.id for x in ast.walk(lp.target) if isinstance(x, ast.Name)}
+        n_depth += 1
+        rep.check("T12", depth >= 3, db.loc(rg), gci.short, "reg-depth:" + norm(rg)[:50],
+                  "%s is registered once per level of every traffic path (loop depth %d)" % (norm(rg)[:40], depth),
+                  "the registration %s in %s is made once per traffic path (loop depth %d over "
+                  "self.traffic_paths), not once per level of the path: when the same data is held in two "
+                  "levels with different styles only one of the traces is registered, while the traffic "
+                  "model of the other level still reads its file" % (norm(rg)[:50], gci.short, depth))
+    if n_depth < 2:
+        rep.undecided("T12", db.loc(gci.node), gci.short,
+                      "the traffic-path registrations of get_collected_tensor_info were not found")
+
     # ---- T11: a de-duplication inside a per-element loop is keyed by the element --------
     rep.rule("T11", "trace placement is not skipped by a de-duplication coarser than the element", 30)
     if not _fx_t11():
@@ -703,6 +747,10 @@ def mutants(db: DB):
     col, met, cmp_, hd = ("teaal/trans/collector.py", "teaal/ir/metrics.py", "teaal/ir/component.py",
                           "teaal/trans/header.py")
     return [
+        M("traces registered once per path, from its first level", "teaal/ir/metrics.py",
+          "                    for component, style in path:\n                        if isinstance(component, DRAMComponent):\n                            continue\n\n                        if style == \"lazy\":",
+          "                    for component, style in path[-1:]:\n                        pass\n                    if True:\n                        if isinstance(component, DRAMComponent):\n                            continue\n\n                        if style == \"lazy\":",
+          "T12"),
         M("only the first on-chip level registers its traces", "teaal/ir/metrics.py",
           "                    for component, style in path:\n                        if isinstance(component, DRAMComponent):\n                            continue\n\n                        if style == \"lazy\":",
           "                    for component, style in path[1:2]:\n                        if isinstance(component, DRAMComponent):\n                            continue\n\n                        if style == \"lazy\":",
